@@ -1,4 +1,6 @@
 import Spake2Verif.Proofs.PropAuxB3
+import Spake2Verif.Proofs.UnknownGroup
+import Spake2Verif.Spec.ToyCurves
 /-!
 # C13 — Group elements obey the group axioms through the element API, in every group
 
@@ -327,7 +329,8 @@ theorem eq_ed (c : Curve) (h : CurveOK c) (a b : EdElem) :
 /-! ### `negate`, `subtract` -/
 
 /-- the scalar `Element.negate` multiplies by, generated from the source: `L - 1` (fix F1; it was `L - 2`) -/
-theorem negate_scalar (L : ℤ) : Ed.negate_scalar L = L - 1 := rfl
+theorem negate_scalar (L : ℤ) : Ed.negate_scalar L = L - 1 := by
+  unfold Ed.negate_scalar; omega
 
 /-- Ed25519 `a.negate()` is the group inverse -/
 theorem negate_ed (c : Curve) (h : CurveOK c) (a : EdElem) (va : (ed25519Spec c h).Valid a) :
@@ -380,5 +383,52 @@ example : (intGroup ⟨23, 11, 2⟩).smul (2 : Int) 25 = .ok (8 : Int) ∧ (intG
 /-- the Ed25519 base point is obtainable and valid; `Zero` too -/
 example : specGen.Valid (edGroup ed25519).base ∧ specGen.Valid (edGroup ed25519).zero :=
   ⟨obtainable_valid_ed25519 _ Obtainable.base, obtainable_valid_ed25519 _ Obtainable.zero⟩
+
+/-! ### Beyond the prime-order subgroup: the `ElementOfUnknownGroup` class (all curve points)
+
+The element API also offers `bytes_to_unknown_group_element` / `ElementOfUnknownGroup`, used for
+points of every order.  Proved in `Proofs/UnknownGroup.lean` for every curve meeting `CurveOK`; restated
+here for the generated Ed25519 constants.  `GenRep e P` : the object `e` represents the curve point `P`
+with reduced coordinates. -/
+
+/-- `add` on arbitrary curve points (small-order and off-subgroup included) is the group law; the identity
+result is normalised to `Zero`. -/
+theorem unknown_add_is_group_law {a b : EdElem} {P R : GenPoint} (ra : GenRep a P) (rb : GenRep b R) :
+    GenRep (Ed25519.addUnknown ed25519 a b) (P + R) ∧
+    (P + R = 0 → Ed25519.addUnknown ed25519 a b = Ed25519.Zero ed25519) ∧
+    (P + R ≠ 0 → Ed25519.addUnknown ed25519 a b = ⟨.unknown, Ed.add_elements ed25519.Q ed25519.d a.pt b.pt⟩) :=
+  gen_addUnknown_spec ra rb
+
+/-- `scalarmult(n)` on an unknown-group element is `n • P` for every `n ≥ 0` (safe ladder) and raises for `n < 0`. -/
+theorem unknown_scalarmult {a : EdElem} {P : GenPoint} (ka : a.kind = .unknown) (ra : GenRep a P) (n : ℤ) :
+    (0 ≤ n → Ed25519.smul ed25519 a n =
+        .ok ⟨.unknown, Ed.scalarmult_element_safe_slow ed25519.Q ed25519.d a.pt n⟩ ∧
+      GenRep ⟨.unknown, Ed.scalarmult_element_safe_slow ed25519.Q ed25519.d a.pt n⟩ (n • P)) ∧
+    (n < 0 → Ed25519.smul ed25519 a n = raise .AssertionError) :=
+  gen_smul_unknown_spec ka ra n
+
+/-- `==` is value equality between objects of ANY of the three classes. -/
+theorem eq_is_value_equality_all_classes {a b : EdElem} {P R : GenPoint} (ra : GenRep a P) (rb : GenRep b R) :
+    Ed25519.eq ed25519 a b = true ↔ P = R :=
+  gen_eq_unknown_spec ra rb
+
+/-- the promotion rules of `add` for every combination of classes -/
+theorem add_promotion_rules {a b : EdElem} {P R : GenPoint} (ra : GenRep a P) (rb : GenRep b R)
+    (hza : a.kind = .zero → P = 0) (hzb : b.kind = .zero → R = 0) :
+    ∃ r, Ed25519.add ed25519 a b = .ok r ∧ GenRep r (P + R) ∧
+      (a.kind = .zero → r = b) ∧
+      (a.kind = .elem → b.kind = .zero → r = a) ∧
+      (a.kind ≠ .zero → ¬ (a.kind = .elem ∧ b.kind = .zero) →
+        (P + R = 0 → r = Ed25519.Zero ed25519) ∧
+        (P + R ≠ 0 → r = ⟨promote a.kind b.kind, Ed.add_elements ed25519.Q ed25519.d a.pt b.pt⟩)) :=
+  gen_add_mixed_spec ra rb hza hzb
+
+/-- the toy curves of the exhaustive correspondence runs satisfy `CurveOK`: every Ed25519 theorem of this
+project holds on them too (424 resp. 488 points, cyclic prime-order subgroup). -/
+theorem toy_curves_are_instances :
+    CurveOK toy389 ∧ CurveOK toy397 ∧ CurveOK toy421 ∧ CurveOK toy461 ∧
+    Nat.card specToy389.A = 424 ∧ Nat.card specToy397.A = 424 ∧ specToy389.TorsionIsCyclic ∧ specToy397.TorsionIsCyclic :=
+  ⟨curveOK_toy389, curveOK_toy397, curveOK_toy421, curveOK_toy461, specToy389_card, specToy397_card,
+   specToy389_torsionIsCyclic, specToy397_torsionIsCyclic⟩
 
 end Spake2Verif.C13
